@@ -1018,7 +1018,9 @@ impl<'a, 'src: 'a> Compiler<'a, 'src> {
       .offset_line(offset as usize)
       .expect("Line offset out of bounds");
 
-    self.write_instruction(op_code, line as u16 + 1);
+    // lines are stored as u16, code beyond that line is attributed to the last line that fits
+    let line = (line + 1).min(u16::MAX as usize) as u16;
+    self.write_instruction(op_code, line);
   }
 
   /// write instruction to the current function
